@@ -10,6 +10,8 @@ import Mfi.Lemmas.ConstL
 import Mfi.Lemmas.AccL
 import Mfi.Props.C08
 import Mfi.Props.C02
+import Mfi.Model.Venue
+import Mfi.Lemmas.ResL
 
 namespace Mfi.Props.C20
 open Mfi Mfi.Fx Mfi.Integr
@@ -393,5 +395,119 @@ theorem kamino_withdraw_checked {now amount obPre obPost vPre vPost : Int} {all 
     o.paid - expectedOf o.collateral ≤ 1 ∧ expectedOf o.collateral - o.paid ≤ 1 := by
   obtain ⟨h1, h2, _, h4, h5, _⟩ := Mfi.Props.C02.kamino_withdraw_spec h
   exact ⟨h1, h2, h4, h5⟩
+
+section whole_instructions
+open Mfi Mfi.Venue Mfi.Integr Mfi.Bank
+
+/-! ### Drift at instruction level (Mfi/Model/Venue.lean: `driftDeposit`, `driftWithdrawPlan`, `driftWithdraw`) -/
+
+/-- a withdrawal's scaled decrement, when it is not zero, is worth STRICTLY MORE than the amount -/
+theorem decrement_covers {dec cum a e P : Int} (h : scaledBalanceDecrement dec cum a = some e)
+    (hP : precisionIncrease dec = some P) (hc : 0 ≤ cum) (he : e ≠ 0) : a * P < e * cum := by
+  obtain ⟨p, hp, hcp, es⟩ := dec_some hc h
+  rw [hP] at hp; injection hp with hp; subst hp
+  by_cases hz : a * P / cum = 0
+  · simp [hz] at es; exact absurd es he
+  · simp only [hz, if_false] at es
+    rw [es]
+    exact Int.lt_ediv_add_one_mul_self _ hcp
+
+theorem all_amounts_decrement {dec cum sb t e : Int} (h : driftAllAmounts dec cum sb = some (t, e)) :
+    scaledBalanceDecrement dec cum t = some e := by
+  unfold driftAllAmounts at h
+  split at h
+  · cases h
+  · rename_i t0 _
+    split at h
+    · cases h
+    · rename_i e0 he0
+      split at h
+      · split at h
+        · cases h
+        · rename_i e1 he1
+          injection h with h; injection h with h1 h2; subst h1; subst h2; exact he1
+      · injection h with h; injection h with h1 h2; subst h1; subst h2; exact he0
+
+theorem partial_amounts_decrement {dec cum amount shares t d : Int} (h : driftPartialAmounts dec cum amount shares = .ok (some (t, d))) :
+    scaledBalanceDecrement dec cum t = some d := by
+  unfold driftPartialAmounts at h
+  split at h
+  · cases h
+  · rename_i d0 hd0
+    split at h
+    · cases h
+    · split at h
+      · split at h
+        · cases h
+        · rename_i t1 _
+          split at h
+          · cases h
+          · rename_i d1 hd1
+            injection h with h; injection h with h; injection h with h1 h2; subst h1; subst h2; exact hd1
+      · injection h with h; injection h with h; injection h with h1 h2; subst h1; subst h2; exact hd0
+
+/-- **drift_plan_announces_the_decrement_of_what_it_asks_for**: whatever branch `drift_withdraw` takes — partial, partial on the
+    one-unit boundary (amount recomputed from the position's shares), complete, complete with the one-base-unit reduction —
+    the scaled-balance change it debits and announces is Drift's own decrement of exactly the token amount it asks for -/
+theorem drift_plan_announces_the_decrement_of_what_it_asks_for {now amount dec cum : Int} {b : Bank} {x : Balance} {all : Bool} {p : DPlan}
+    (h : driftWithdrawPlan now b x amount all dec cum = .ok p) :
+    scaledBalanceDecrement dec cum p.tokens = some p.scaled := by
+  unfold driftWithdrawPlan at h
+  cases all with
+  | true =>
+    simp only [if_true] at h
+    obtain ⟨⟨b', x', sb⟩, _, h⟩ := Res.bind_ok h
+    dsimp only at h
+    split at h
+    · cases h
+    · rename_i t e hsel
+      split at h
+      · cases h
+      · injection h with h; subst h; exact all_amounts_decrement hsel
+  | false =>
+    simp only [Bool.false_eq_true, if_false] at h
+    obtain ⟨sel, hsel, h⟩ := Res.bind_ok h
+    split at h
+    · cases h
+    · rename_i t d
+      obtain ⟨⟨b', x'⟩, _, h⟩ := Res.bind_ok h
+      injection h with h; subst h
+      exact partial_amounts_decrement hsel
+
+/-- **drift_withdraw_never_overpays**: the tokens a Drift withdrawal asks the venue for (and forwards to the user) are worth
+    STRICTLY LESS than the scaled balance it debits, at the market's exchange rate — in every branch. (The one exception is the
+    venue's own: a request worth less than one scaled unit costs no scaled balance at all, `scaled = 0`.) -/
+theorem drift_withdraw_never_overpays {now amount dec cum P : Int} {b : Bank} {x : Balance} {all : Bool} {p : DPlan}
+    (h : driftWithdrawPlan now b x amount all dec cum = .ok p) (hP : precisionIncrease dec = some P) (hc : 0 ≤ cum)
+    (hs : p.scaled ≠ 0) : p.tokens * P < p.scaled * cum :=
+  decrement_covers (drift_plan_announces_the_decrement_of_what_it_asks_for h) hP hc hs
+
+/-- **drift_deposit_never_overcredits**: an accepted Drift deposit credits exactly the scaled balance the venue credited, and
+    that is at most amount x precision / cumulative interest -/
+theorem drift_deposit_never_overcredits {now amount dec cum pre post P credited : Int} {b b' : Bank} {bal x' : Option Balance}
+    (h : driftDeposit now b bal amount dec cum pre post = .ok (b', x', credited)) (hP : precisionIncrease dec = some P) (hc : 0 ≤ cum) :
+    credited = post - pre ∧ credited * cum ≤ amount * P := by
+  unfold driftDeposit at h
+  split at h
+  · cases h
+  · rename_i expected hexp
+    split at h
+    · cases h
+    · split at h
+      · cases h
+      · rename_i _ heq
+        obtain ⟨r, _, h⟩ := Res.bind_ok h
+        injection h with h
+        injection h with _ h
+        injection h with _ h
+        have heq' : post - pre = expected := by
+          by_contra hne; exact heq hne
+        refine ⟨h.symm, ?_⟩
+        obtain ⟨p, hp, hcp, es, _⟩ := inc_some hc hexp
+        rw [hP] at hp; injection hp with hp; subst hp
+        rw [← h, heq', es]
+        exact Int.ediv_mul_le _ (by omega)
+
+end whole_instructions
 
 end Mfi.Props.C20
